@@ -930,7 +930,7 @@ pub fn execute(ctx: &mut Ctx, lines: &[String]) -> Vec<String> {
                     // oracle C13 (brace targets with `_Default` in the list, whatever else is named): the
                     // default channel gets the record iff the spec enables it for the record's MODULE path
                     // (and the text filter matches) — unknown or other names do not disturb that
-                    if prop == "C13" && tg.starts_with('{') && tg.ends_with('}') && tg.len() >= 2 && l <= lfn(log::max_level()) {
+                    if (prop == "C13" || (prop == "C02" && st.kinds.is_empty())) && tg.starts_with('{') && tg.ends_with('}') && tg.len() >= 2 && l <= lfn(log::max_level()) {
                         let inner = &tg[1..tg.len() - 1];
                         if inner.split(',').any(|n| n == "_Default") {
                             if let Some((fs, rx)) = &intended {
@@ -954,7 +954,11 @@ pub fn execute(ctx: &mut Ctx, lines: &[String]) -> Vec<String> {
                     // enabled() never false for a record that is written
                     let honouring_emitted = emitted.iter().any(|n| st.kinds.get(n).map(String::as_str) != Some("rec")) || !provided.is_empty();
                     // (the `{.., _Default}` part of this statement is C02's known finding; it is evaluated for C02 only)
-                    if prop == "C02" && (default || honouring_emitted) && q == Some(false) {
+                    // (generated `{_Default}` targets of writer-less loggers: the delivery is judged by
+                    //  brace-default-iff-enabled; the enabled() QUERY for them is the known finding — `Metadata`
+                    //  has no module path —, replayed by its directed corpus case only)
+                    let known_query = tg.starts_with('{') && tg.contains("_Default") && !case_id.contains("corpus:");
+                    if prop == "C02" && (default || honouring_emitted) && q == Some(false) && !known_query {
                         ctx.report.fail(&case_id, &format!("enabled-false-but-written{}", if tg.starts_with('{') { "-brace" } else { "" }), &format!(
                             "line {li}: target {tg:?} level {l}: enabled()=false but the record was written (default={default}, writers={emitted:?})"));
                     }
@@ -1293,6 +1297,16 @@ pub fn gen_c02(tier: &str, seed: u64) -> Vec<Vec<String>> {
             let tg = if r.chance(1, 2) { format!("{{{w}}}") } else { format!("{{{w},Unknown}}") };
             let mt = rx.as_ref().map_or(true, |x| regex::Regex::new(x).unwrap().is_match("x"));
             c.push(format!("LOG {l} {} m{} {} {}", hexs(&tg), hexs("mod1"), if mt { 1 } else { 0 }, hexs("x")));
+        }
+        // without any additional writer: a target `{_Default}` still addresses the default channel, and
+        // the specification judges the record's MODULE path (not the text of the target)
+        if wnames.is_empty() {
+            for _ in 0..3 {
+                let tg = r.pick(&tgs).clone();
+                let l = r.range(1, 5);
+                let mt = rx.as_ref().map_or(true, |x| regex::Regex::new(x).unwrap().is_match("x"));
+                c.push(format!("LOG {l} {} m{} {} {}", hexs("{_Default}"), hexs(&tg), if mt { 1 } else { 0 }, hexs("x")));
+            }
         }
         c.push("END".into());
         cases.push(c);
